@@ -1,5 +1,7 @@
 //go:build verif
 
+//go:debug asynctimerchan=0
+
 package throttle
 
 // World B: the real ThrottledRecorder + juju/ratelimit on a simulated monotonic
@@ -12,7 +14,11 @@ import (
 	"fmt"
 	"io"
 	"log"
+	"runtime"
+	"strings"
+	"sync/atomic"
 	"testing"
+	"testing/synctest"
 	"time"
 
 	config "github.com/TheCacophonyProject/go-config"
@@ -25,6 +31,7 @@ import (
 func init() { log.SetOutput(io.Discard) }
 
 func TestVerif(t *testing.T) {
+	theTB = t
 	verifsim.Main(t, verifsim.Unit{
 		Name: "B.thr", Props: []string{"C05", "C06"}, Run: runB,
 		Rule:        "one case = seeded throttle configuration (fps 1-60, bucket 1 s-20 min in whole seconds, min-refill 1 s-1 h, min+preview 1-20 s, incl. bucket < minimum clip) + seeded schedule of upstream sessions {Start, Write x k, Stop, CheckCanRecord} with clock advances from {0, sub-tick, frame period, seconds, minutes, hours} between calls and base-recorder start failures at seeded calls; non-trivial = at least one throttle cut or suppressed start and at least one forwarded write; distinct = configuration + compact call/outcome string",
@@ -74,9 +81,25 @@ func (b *baseRec) StopRecording() error {
 	return nil
 }
 
-type countListener struct{ n int }
+type countListener struct{ n atomic.Int64 }
 
-func (l *countListener) WhenThrottled() { l.n++ }
+func (l *countListener) WhenThrottled() { l.n.Add(1) }
+
+// clocks of world B: the injected simulated clock, or - for the production constructor, which reads the
+// real clock - the fake clock of a synctest bubble
+type bClock interface {
+	Now() time.Time
+	Advance(d time.Duration)
+}
+
+type bubbleClock struct{}
+
+func (bubbleClock) Now() time.Time { return time.Now() }
+func (bubbleClock) Advance(d time.Duration) {
+	if d > 0 {
+		time.Sleep(d)
+	}
+}
 
 // upstream call as observed
 type upCall struct {
@@ -111,8 +134,43 @@ func runB(r *verifsim.Run) {
 	c.minS = r.OneOf(1, 2, 3, 5, 10, r.Range(1, 20))
 	r.Set("cfg", fmt.Sprintf("fps%d bucket%ds refill%v minclip%ds (C=%v frames, M=%d frames, rate %.4f frames/s)", c.fps, c.bucketS, c.refill(), c.minS, c.C(), c.M(), c.rho()))
 	cam := zz.Cam{W: 2, H: 2, Fps: c.fps}
-	clock := &zz.SimClock{T: time.Date(2021, 3, 14, 0, 0, 0, 0, time.UTC)}
-	start := clock.T
+	// one run in five builds the throttle with the production constructor (real clock, as main.go does) inside
+	// a synctest bubble; events are then only counted once everything has come to rest, so that a listener
+	// that delivers asynchronously is judged by the same "exactly one per suppressed start or cut"
+	prod := r.Chance(1, 5)
+	if prod {
+		r.Probe("production-constructor-in-bubble")
+		old := runtime.GOMAXPROCS(1) // one P: which goroutine runs next does not depend on the machine
+		defer runtime.GOMAXPROCS(old)
+		// a goroutine of the throttle still waiting for work when the bubble ends (an asynchronous listener,
+		// say) is no fault; anything else that panics is the harness's
+		if msg := bubbleB(func() { runBBody(r, c, cam, bubbleClock{}, true) }); msg != "" && !strings.Contains(msg, "blocked goroutines remain") {
+			panic(msg)
+		}
+		return
+	}
+	runBBody(r, c, cam, &zz.SimClock{T: time.Date(2021, 3, 14, 0, 0, 0, 0, time.UTC)}, false)
+}
+
+func bubbleB(f func()) (panicked string) {
+	done := make(chan struct{})
+	go func() {
+		defer close(done)
+		defer func() {
+			if p := recover(); p != nil {
+				panicked = fmt.Sprint(p)
+			}
+		}()
+		synctest.Test(theTB, func(t *testing.T) { f() })
+	}()
+	<-done
+	return panicked
+}
+
+var theTB *testing.T
+
+func runBBody(r *verifsim.Run, c bCfg, cam zz.Cam, clock bClock, prod bool) {
+	start := clock.Now()
 	base := &baseRec{failAt: map[int]bool{}}
 	if r.Chance(1, 2) {
 		for i, n := 0, r.Range(1, 5); i < n; i++ {
@@ -121,11 +179,16 @@ func runB(r *verifsim.Run) {
 	}
 	lis := &countListener{}
 	tc := &config.ThermalThrottler{Activate: true, BucketSize: time.Duration(c.bucketS) * time.Second, MinRefill: c.refill()}
-	thr := NewThrottledRecorderWithClock(base, tc, c.minS, lis, clock, cam)
+	var thr *ThrottledRecorder
+	if prod {
+		thr = NewThrottledRecorder(base, tc, c.minS, lis, cam)
+	} else {
+		thr = NewThrottledRecorderWithClock(base, tc, c.minS, lis, clock.(*zz.SimClock), cam)
+	}
 
 	var ups []upCall
 	call := func(op byte, bg *cptvframe.Frame, th uint16, f *cptvframe.Frame) bool {
-		nb, ne := len(base.calls), lis.n
+		nb, ne := len(base.calls), lis.n.Load()
 		var err error
 		switch op {
 		case 'S':
@@ -137,7 +200,11 @@ func runB(r *verifsim.Run) {
 		case 'C':
 			err = thr.CheckCanRecord()
 		}
-		ups = append(ups, upCall{op: op, t: clock.T, err: err != nil, base: append([]baseCall(nil), base.calls[nb:]...), events: lis.n - ne, bg: bg, thresh: th, frame: f})
+		ev := int(lis.n.Load() - ne)
+		if prod {
+			ev = -1 // not attributed to calls
+		}
+		ups = append(ups, upCall{op: op, t: clock.Now(), err: err != nil, base: append([]baseCall(nil), base.calls[nb:]...), events: ev, bg: bg, thresh: th, frame: f})
 		return err == nil
 	}
 	period := time.Second / time.Duration(c.fps)
@@ -200,12 +267,17 @@ func runB(r *verifsim.Run) {
 		nWrites++ // failed starts also consume budget so that the loop ends
 		adv()
 	}
-	r.SimTime(clock.T.Sub(start))
-	checkThrottle(r, c, ups)
+	r.SimTime(clock.Now().Sub(start))
+	total := -1
+	if prod {
+		synctest.Wait()
+		total = int(lis.n.Load())
+	}
+	checkThrottle(r, c, ups, total)
 }
 
 // checkThrottle evaluates the C05 and C06 rules on the observed calls.
-func checkThrottle(r *verifsim.Run, c bCfg, ups []upCall) {
+func checkThrottle(r *verifsim.Run, c bCfg, ups []upCall, totalEvents int) {
 	C, M, rho := c.C(), c.M(), c.rho()
 	var wt []time.Time // times of forwarded writes
 	baseOpen := false
@@ -347,7 +419,7 @@ func checkThrottle(r *verifsim.Run, c bCfg, ups []upCall) {
 						return
 					}
 				}
-				if u.events != 0 {
+				if u.events > 0 || (u.events != 0 && totalEvents < 0) {
 					r.Violate("C06", "C06.events", "on-failed-start", "upstream start %d failed in the base recorder but %d 'throttled' events were emitted", i, u.events)
 					if r.Failed() {
 						return
@@ -358,7 +430,7 @@ func checkThrottle(r *verifsim.Run, c bCfg, ups []upCall) {
 				sig = append(sig, 'S')
 				nFwd++
 				upOpen = true
-				if u.err || u.events != 0 {
+				if u.err || u.events > 0 {
 					r.Violate("C06", "C06.events", "on-forwarded-start", "upstream start %d was forwarded but returned err=%v with %d events", i, u.err, u.events)
 					if r.Failed() {
 						return
@@ -380,7 +452,7 @@ func checkThrottle(r *verifsim.Run, c bCfg, ups []upCall) {
 						return
 					}
 				}
-				if u.events != 1 {
+				if u.events >= 0 && u.events != 1 {
 					r.Violate("C06", "C06.events", "suppressed-start", "upstream start %d was suppressed: %d 'throttled' events, expected exactly one", i, u.events)
 					if r.Failed() {
 						return
@@ -398,7 +470,7 @@ func checkThrottle(r *verifsim.Run, c bCfg, ups []upCall) {
 			switch {
 			case nS == 1 && startFailed:
 				sig = append(sig, 'F')
-				if u.events != 0 {
+				if u.events > 0 || (u.events != 0 && totalEvents < 0) {
 					r.Violate("C06", "C06.events", "on-failed-start", "mid-trigger restart in call %d failed in the base recorder but %d events were emitted", i, u.events)
 					if r.Failed() {
 						return
@@ -409,7 +481,7 @@ func checkThrottle(r *verifsim.Run, c bCfg, ups []upCall) {
 				sig = append(sig, 'R')
 				nRestart++
 				r.Probe("mid-trigger-restart")
-				if u.events != 0 {
+				if u.events > 0 || (u.events != 0 && totalEvents < 0) {
 					r.Violate("C06", "C06.events", "restart", "mid-trigger restart in call %d emitted %d events", i, u.events)
 					if r.Failed() {
 						return
@@ -419,7 +491,7 @@ func checkThrottle(r *verifsim.Run, c bCfg, ups []upCall) {
 				if len(sig) == 0 || sig[len(sig)-1] != 'w' {
 					sig = append(sig, 'w')
 				}
-				if u.events != 0 {
+				if u.events > 0 || (u.events != 0 && totalEvents < 0) {
 					r.Violate("C06", "C06.events", "per-frame", "forwarded write (call %d) emitted %d 'throttled' events", i, u.events)
 					if r.Failed() {
 						return
@@ -441,7 +513,7 @@ func checkThrottle(r *verifsim.Run, c bCfg, ups []upCall) {
 						return
 					}
 				}
-				if u.events != 1 {
+				if u.events >= 0 && u.events != 1 {
 					r.Violate("C06", "C06.events", "cut", "throttle cut in call %d: %d 'throttled' events, expected exactly one", i, u.events)
 					if r.Failed() {
 						return
@@ -464,7 +536,7 @@ func checkThrottle(r *verifsim.Run, c bCfg, ups []upCall) {
 						return
 					}
 				}
-				if u.events != 0 {
+				if u.events > 0 || (u.events != 0 && totalEvents < 0) {
 					r.Violate("C06", "C06.events", "per-frame", "suppressed write (call %d) emitted %d 'throttled' events (one per suppressed start or cut, never one per frame)", i, u.events)
 					if r.Failed() {
 						return
@@ -480,7 +552,7 @@ func checkThrottle(r *verifsim.Run, c bCfg, ups []upCall) {
 		case 'X':
 			sig = append(sig, 'x')
 			upOpen = false
-			if nS != 0 || nW != 0 || u.events != 0 {
+			if nS != 0 || nW != 0 || u.events > 0 {
 				r.Violate("C06", "C06.pairing", "stop-side-effects", "upstream stop %d caused base starts/writes/events", i)
 				if r.Failed() {
 					return
@@ -494,6 +566,17 @@ func checkThrottle(r *verifsim.Run, c bCfg, ups []upCall) {
 			}
 		}
 		r.Distinct("b.outcome", fmt.Sprintf("%c:%d%d%d:%v:%d", u.op, nS, nW, nX, u.err, u.events))
+	}
+	if totalEvents >= 0 {
+		if totalEvents != nSupp+nCut {
+			sig := "total:missing"
+			if totalEvents > nSupp+nCut {
+				sig = "total:spurious"
+			}
+			r.Violate("C06", "C06.events", sig, "production constructor: %d starts were suppressed and %d files cut, but the listener had been told %d times once everything had come to rest (exactly one 'throttled' event per suppressed start or cut)", nSupp, nCut, totalEvents)
+		} else if totalEvents > 0 {
+			r.Probe("events-counted-at-rest")
+		}
 	}
 	r.Count("forwarded_writes", len(wt))
 	r.Count("upstream_calls", len(ups))
